@@ -18,8 +18,8 @@ ASSUMPTIONS = [
 NSHARDS = {"quick": 32, "thorough": 64}
 BUDGET_S = {"quick": 200, "thorough": 1800}
 MIN_HITS = {
-    'quick': {"pair": 4925, "len_constraint": 90, "sig_token": 160, "pubkey_token": 160, "pkh_token": 160, "self": 16852, "criteria": 10240, "expect_match": 2202, "expect_nomatch": 2642},
-    'thorough': {"pair": 675855, "len_constraint": 108, "mixed": 115194, "sig_token": 30720, "pubkey_token": 30720, "pkh_token": 30720, "self": 80192, "criteria": 1536000},
+    'quick': {"pair": 5009, "len_constraint": 90, "sig_token": 160, "pubkey_token": 160, "pkh_token": 160, "self": 16852, "criteria": 10240, "expect_match": 2216, "expect_nomatch": 2707},
+    'thorough': {"pair": 678283, "len_constraint": 108, "mixed": 115194, "sig_token": 30720, "pubkey_token": 30720, "pkh_token": 30720, "self": 80192, "criteria": 1536000},
 }
 PSEUDO = {251, 252, 253, 254}
 OPC = [c for c in wire.PLAIN_OPCODES if c not in PSEUDO]
@@ -103,6 +103,17 @@ def cases(ctx):
             yield {"k": "pair", "script": wire.detok([("push", data), ("op", 0xAC)]).hex(), "tmpl": "%s OP_CHECKSIG" % tokname, "tag": kind}
         # the standard p2pkh unlock+lock shape with extraction order (below)
         pass
+    # public-key pushes with every possible tag byte in front of VALID coordinates: only 02/03 (33 bytes, right parity) and 04 (65 bytes)
+    # decode as keys; the hybrid tags 06/07 and everything else do not
+    Qk = ec.mul_g(r.randrange(1, ec.N))
+    xb, yb = Qk[0].to_bytes(32, "big"), Qk[1].to_bytes(32, "big")
+    for tag in list(range(0, 12)) + [0x80, 0xFF]:
+        for body in (xb, xb + yb):
+            if (tag * 2 + len(body)) % N != S % 7 and not t:
+                if tag not in (6, 7):
+                    continue
+            data = bytes([tag]) + body
+            yield {"k": "pair", "script": wire.detok([("push", data), ("op", 0xAC)]).hex(), "tmpl": "OP_PUBKEY OP_CHECKSIG", "tag": "pubkey_tag_sweep"}
     # signatures of EVERY encoded size: r and s each with a DER integer length of 1..33 bytes (33 = top bit set, leading zero),
     # with and without a trailing flag byte: pushes of 8..73 bytes
     def der_int_of_len(D):
@@ -175,7 +186,7 @@ def cases(ctx):
         p2pkh = b"\x76\xa9\x14" + pk + b"\x88\xac"
         bound = r.choice([0, 1, 1000, 2**32, 2**63, 2**64 - 2])
         vals = [v for v in (bound - 1, bound, bound + 1, 0, 2**64 - 1, r.getrandbits(64)) if 0 <= v < 2**64]
-        outs = [{"value": r.choice(vals), "script": r.choice([p2pkh, p2pkh, b"\x6a", b"\x76\xa9\x14" + gen.rbytes(r, 20) + b"\x88\xac", wire.detok([("push", gen.rbytes(r, 33)), ("op", 0xAC)])])} for _ in range(no)]
+        outs = [{"value": r.choice(vals), "script": r.choice([p2pkh, p2pkh, b"\x6a", b"", b"\x76\xa9\x14" + gen.rbytes(r, 20) + b"\x88\xac", wire.detok([("push", gen.rbytes(r, 33)), ("op", 0xAC)])])} for _ in range(no)]
         ins = [gen.gen_txin(r, script=wire.detok([("push", gen.rbytes(r, r.choice([5, 71]))), ("push", gen.rbytes(r, 33))]) if r.random() < 0.7 else b"\x51") for _ in range(ni)]
         # unsigned inputs: EMPTY unlocking script; what the template sees is then the recorded locking script alone
         for j_ in range(ni):
@@ -196,7 +207,7 @@ def cases(ctx):
             if api_inputs:
                 c["api_inputs"] = api_inputs
             if mask & 1:
-                c["tmpl"] = r.choice(["OP_DUP OP_HASH160 OP_PUBKEYHASH OP_EQUALVERIFY OP_CHECKSIG", "OP_DUP OP_HASH160 %s OP_EQUALVERIFY OP_CHECKSIG" % pk.hex(), "OP_DATA OP_DATA=33", "OP_RETURN", "OP_DATA OP_DATA=33 OP_DUP OP_HASH160 OP_PUBKEYHASH OP_EQUALVERIFY OP_CHECKSIG"])
+                c["tmpl"] = r.choice(["" if i % 4 == 2 else "OP_RETURN", "OP_DUP OP_HASH160 OP_PUBKEYHASH OP_EQUALVERIFY OP_CHECKSIG", "OP_DUP OP_HASH160 %s OP_EQUALVERIFY OP_CHECKSIG" % pk.hex(), "OP_DATA OP_DATA=33", "OP_RETURN", "OP_DATA OP_DATA=33 OP_DUP OP_HASH160 OP_PUBKEYHASH OP_EQUALVERIFY OP_CHECKSIG"])
             if mask & 2:
                 c["exact"] = 0 if r.random() < 0.25 else r.choice(vals)
             if mask & 4:
@@ -271,7 +282,9 @@ def judge(ctx, case):
         tx = wire.tx_decode(bytes.fromhex(case["tx"]))
         ctx.hit("criteria")
         ctx.nontrivial()
-        tm = template.parse_template(case["tmpl"]) if "tmpl" in case else None
+        tm = ([] if case["tmpl"] == "" else template.parse_template(case["tmpl"])) if "tmpl" in case else None
+        if case.get("tmpl") == "":
+            ctx.hit("empty_template_in_criteria")
         ex, mn, mx = case.get("exact"), case.get("min"), case.get("max")
         ctx.hit("criteria_mask_%d" % ((1 if tm else 0) | (2 if ex is not None else 0) | (4 if mn is not None else 0) | (8 if mx is not None else 0)))
         req = {"op": "criteria", "tx": case["tx"], "ext": case["ext"], "order": case.get("order", ["tmpl", "exact", "min", "max"])}
